@@ -95,6 +95,9 @@ func (t Tuple) M__getitem__(key Object) (Object, error) {
 		}
 		if step == 1 {
 			// Return a subslice since tuples are immutable
+			if stop < start {
+				stop = start
+			}
 			return t[start:stop], nil
 		}
 		newTuple := make(Tuple, slicelength)
@@ -114,7 +117,7 @@ func (a Tuple) M__add__(other Object) (Object, error) {
 	if b, ok := other.(Tuple); ok {
 		newTuple := make(Tuple, len(a)+len(b))
 		copy(newTuple, a)
-		copy(newTuple[len(b):], b)
+		copy(newTuple[len(a):], b)
 		return newTuple, nil
 	}
 
